@@ -798,3 +798,25 @@ func init() {
 		}
 	})
 }
+
+func init() {
+	// C13: edge x-only keys — zero (not a point: lift_x(0) has no square root, and the degenerate
+	// (0, 0) must not be mistaken for one), small values, p-1, p, p+1, n, 2^256-1 — as keys to tweak
+	// and as internal keys of a P2TR output
+	regExtra("C13", func(r *Runner) {
+		p, _ := new(big.Int).SetString("fffffffffffffffffffffffffffffffffffffffffffffffffffffffefffffc2f", 16)
+		n, _ := new(big.Int).SetString("fffffffffffffffffffffffffffffffebaaedce6af48a03bbfd25e8cd0364141", 16)
+		one := big.NewInt(1)
+		var keys [][]byte
+		for _, v := range []*big.Int{big.NewInt(0), one, big.NewInt(2), big.NewInt(3), big.NewInt(5), big.NewInt(7),
+			new(big.Int).Sub(p, one), p, new(big.Int).Add(p, one), n, new(big.Int).Sub(new(big.Int).Lsh(one, 256), one)} {
+			keys = append(keys, v.FillBytes(make([]byte, 32)))
+		}
+		for _, k := range keys {
+			for _, h := range [][]byte{{}, r.bytesN(32)} {
+				r.Do("tap.tweakpub", []string{hx(k), hx(h)}, "xonly/edge-key", true, "edge x coordinate as x-only key")
+			}
+			r.Do("tap.p2tr", []string{hx(k), "N"}, "p2tr/edge-internal-key", true, "edge x coordinate as internal key")
+		}
+	})
+}
